@@ -3,7 +3,7 @@
 # Runs the property's check against a scratch worktree of /repo HEAD with the seeded change applied
 # (S2T_REPO), so /repo itself is never modified while other checks may be running.
 s=$1; shift
-ID=${s%%-*}
+ID=${CHECK_ID:-${s%%-*}}
 wt=/tmp/wt/seedrun_$s
 git -C /repo worktree remove --force $wt 2>/dev/null
 git -C /repo worktree add -q --detach $wt HEAD || exit 2
